@@ -421,6 +421,41 @@ def _trace_distance_rules(ctx, repo):
             bad = (al, float(got), want)
     ctx.ob('C08.f', 'cirq.protocols.trace_distance_bound.trace_distance_from_angle_list', bad is None,
            '' if bad is None else f'for eigen-phases {np.round(bad[0], 3).tolist()} the helper returns {bad[1]:.6f} < the exact maximum trace distance {bad[2]:.6f}', tm.rel, hf.lineno)
+    # controlled wrappers: the identity block contributes the eigen-phase 0, so a global phase of the sub-operation becomes a relative one
+    probes_u = {
+        'i*I': 1j * np.eye(2), 'X**0.01 * exp(i pi/4)': np.exp(1j * np.pi / 4) * (np.cos(0.005 * np.pi) * np.eye(2) - 1j * np.sin(0.005 * np.pi) * np.array([[0, 1], [1, 0]])),
+        'Z': np.diag([1, -1]).astype(complex), 'T': np.diag([1, np.exp(1j * np.pi / 4)]), '-I': -np.eye(2).astype(complex), 'I': np.eye(2).astype(complex),
+        'exp(0.3i) S': np.exp(0.3j) * np.diag([1, 1j]),
+    }
+    for cq, sub in (('cirq.ops.controlled_operation.ControlledOperation', 'sub_operation'), ('cirq.ops.controlled_gate.ControlledGate', 'sub_gate')):
+        ci = repo.cls(cq)
+        fn = ci.methods.get('_trace_distance_bound_')
+        if fn is None:
+            raise AnalysisError(f'{cq}._trace_distance_bound_ vanished')
+        worst = None
+        for nm, u in probes_u.items():
+            def call_hook(call, it, _u=u):
+                s_ = ast.unparse(call.func)
+                if s_.endswith('is_parameterized') or s_.endswith('_is_parameterized_'):
+                    return False
+                if s_.endswith('.unitary'):
+                    return np.array(_u, dtype=complex)
+                if s_.endswith('trace_distance_from_angle_list'):
+                    return _true_trace_distance(list(np.asarray(it.ev(call.args[0]), dtype=float)))
+                if s_.endswith('trace_distance_bound'):
+                    return _true_trace_distance(list(np.angle(np.linalg.eigvals(np.array(_u, dtype=complex)))))   # what the wrapped value reports for itself
+                return NotImplemented
+            it = fdx.NumInterp({'self': {sub: 'SUB', '_' + sub: 'SUB'}}, call_hook=call_hook)
+            try:
+                got = it.call(fn)
+            except fdx.Unsupported as ex:
+                raise AnalysisError(f'{cq}._trace_distance_bound_ is outside the interpretable subset: {ex}')
+            want = _true_trace_distance(list(np.angle(np.linalg.eigvals(np.array(u, dtype=complex)))) + [0.0])
+            if got is not None and got is not NotImplemented and float(got) < want - 1e-9 and worst is None:
+                worst = (nm, float(got), want)
+        ctx.ob('C08.f', f'{cq}._trace_distance_bound_', worst is None,
+               '' if worst is None else f'for the sub-operation {worst[0]} the controlled wrapper reports {worst[1]:.4f}, but controlled-U has the eigen-phases of U and 0 (identity block): '
+               f'the true maximum trace distance is {worst[2]:.4f}', ci.mod.rel, fn.lineno)
     eg = Eigen.methods.get('_trace_distance_bound_')
     ok = eg is not None and any(isinstance(c, ast.Call) and call_name(c) == 'trace_distance_from_angle_list' for c in ast.walk(eg)) and '_eigen_shifts' in ast.unparse(eg) \
         and '_exponent' in ast.unparse(eg)
